@@ -312,7 +312,7 @@ def main (args : List String) : IO UInt32 := do
         | .error .pagesizeMismatch => IO.println s!"{id} => panic:pagesize"
         | .error _ => IO.println s!"{id} => panic:nometa"
         | .ok mt =>
-          let rep := checkBytes Gen.layout Gen.hashOrder ba pagesize
+          let rep := checkBytes Gen.layout Gen.hashOrder ba pagesize false
           if rep.ok then IO.println s!"{id} => ok;dump={rep.dump};check=ok ## tx={mt.txId} slot={mt.metaPage}"
           else IO.println s!"{id} => bad:{rep.msg} ## tx={mt.txId} slot={mt.metaPage}"
       | _ => pure ()
